@@ -1050,7 +1050,13 @@ def _lockstep_op(run, ms, op, run_out=None):
         if out[0] == "exc":
             e = out[1]
             if not isinstance(e, SA_ERRORS):
-                raise e
+                where = _sa_frame(e)
+                if where is None:
+                    raise e
+                if exp["open"] or ms.taint or ms.stale:
+                    return None, None, problems
+                problems.append(("crash", "%s crashed inside the library: %s in %s" % (k, type(e).__name__, where), repr(e)[:300]))
+                return None, None, problems
             if exp.get("known_any"):
                 problems.append(("known:" + exp["known_any"], KNOWN_QUIRKS[exp["known_any"]], "%s raised %r" % (k, e)))
             elif not exp["error"] and exp.get("known_err"):
@@ -1159,6 +1165,21 @@ def _lockstep_op(run, ms, op, run_out=None):
         problems.append(("life", "object states after %s" % op[0], p))
         return None, None, problems
     return post, (run.canon(), post.canon()), problems
+
+
+def _sa_frame(e):
+    """innermost traceback frame if it is inside sqlalchemy (a non-SQLAlchemy exception escaping from the library)"""
+    tb = e.__traceback__
+    last = None
+    while tb is not None:
+        last = tb
+        tb = tb.tb_next
+    if last is None:
+        return None
+    fn = last.tb_frame.f_code.co_filename
+    if "/sqlalchemy/" in fn:
+        return "%s:%s" % (fn.split("/sqlalchemy/")[-1], last.tb_frame.f_code.co_name)
+    return None
 
 
 def _f5_match(w, got, want):
